@@ -93,10 +93,8 @@ Proof.
   (* OSyncTx *)
   pose proof I2 as I2'. destruct I2' as [_ Inv2 _ _ _ _ _ _ _ _ _ _ _ _ Icph2 _].
   rewrite P2 in Icph2. destruct Icph2 as (Q1 & Q2 & Q3 & _ & _).
-  assert (Es: exists c1, f_setoffset (cml s2) (44 * committed s2) = Some c1).
-  { unfold f_setoffset, f_offset. rewrite Q2, Q3, len_nil.
-    destruct (N.ltb_spec (44 * committed s2 + 0) (44 * committed s2)); [lia|].
-    destruct (44 * committed s2 <=? 44 * committed s2); eauto. }
+  assert (Es: exists c1, f_setoffset_gen (c_prealloc (s_cfg s2)) (cml s2) (44 * committed s2) = Some c1).
+  { apply f_setoffset_some. unfold f_offset. rewrite Q2, Q3, len_nil. lia. }
   destruct Es as (c1 & Es).
   assert (Ea: exists a, (if c_ahtsync (s_cfg s2) then aht_sync (aht_of s2) else Ok (aht_of s2)) = Ok a /\
                         a_size a = asize s2).
@@ -167,13 +165,11 @@ Proof.
   { rewrite (v_palh _ _ _ _ _ I). eapply last_alh_len; [exact H_len|apply alh0_len; exact H_len|exact (v_chain _ _ _ _ _ I)]. }
   assert (Lraw: len (enc_rec H (precommitted s + 1) (palh s) body) = 76 + len body)
     by (apply (len_enc_rec H H_len); exact Lp).
-  destruct (f_setoffset (txl s) (pts s)) as [t1|] eqn:Es.
-  2:{ exfalso. unfold f_setoffset in Es. pose proof (v_tview _ _ _ _ _ I) as (_ & _ & V3).
-      destruct (N.ltb_spec (f_offset (txl s)) (pts s)); [lia|].
-      destruct (bufoff (txl s) <=? pts s); discriminate. }
+  destruct (f_setoffset_some (c_prealloc (s_cfg s)) (txl s) (pts s)) as (t1 & Es).
+  { pose proof (v_tview _ _ _ _ _ I) as (_ & _ & V3). exact V3. }
   pose proof (v_aht _ _ _ _ _ I) as (IA & _).
   assert (Lalh: len (alh_of H (precommitted s + 1) (palh s) body) = 32) by (apply (H_len' H H_len)).
-  destruct (aht_append_ok _ _ _ IA Lalh) as (a2 & Ea & IA2 & Sz2 & _).
+  destruct (aht_append_ok _ _ _ IA Lalh) as (a2 & Ea & IA2 & Sz2).
   assert (E2: exists s2, step s1 (OPre (length (inflight s)) payload) = Ok s2).
   { unfold Protocol.step. cbv zeta.
     assert (Eph: phase_ s1 = PIdle) by exact Ep. rewrite Eph. cbn [phase_idle negb].
@@ -266,14 +262,18 @@ Lemma recover_core upto c im s :
   recover_logs H c (i_txl im) (i_cml im) (i_vls im) = Ok (committed s, calh s, pbuf s, palh s, pts s) /\
   txl s = f_open (i_txl im) /\ vls s = map f_open (i_vls im) /\
   cml s = (if c_prealloc c then f_open (i_cml im) else open_trim (i_cml im) 44) /\
-  acked s = committed s /\ phase_ s = PIdle /\ inflight s = [] /\ s_cfg s = c.
+  acked s = committed s /\ phase_ s = PIdle /\ inflight s = [] /\ s_cfg s = c /\
+  ~ aht_check_fails im.
 Proof.
-  unfold recover_upto. intros E.
+  clear H_len. unfold recover_upto. intros E.
   destruct (recover_logs H c (i_txl im) (i_cml im) (i_vls im)) as [[[[[cid ca] pb] pa] ptls]| |]; cbn [bind] in E; try discriminate.
-  destruct ((0 <? len (i_ahc im) / 12) && (len (i_ahd im) <? 32 * (len (i_ahc im) / 12))); [discriminate|].
+  destruct ((0 <? len (i_ahc im) / 12) && (len (i_ahd im) <? 32 * (len (i_ahc im) / 12))) eqn:Ck; [discriminate|].
   apply bind_ok in E as (a1 & _ & E). apply bind_ok in E as (a2 & _ & E).
   assert (Q: forall a b, @Ok st a = Ok b -> a = b) by (intros ? ? Q; congruence).
-  apply Q in E. subst s. cbn. repeat split; reflexivity.
+  apply Q in E. subst s. cbn. repeat split; try reflexivity.
+  unfold aht_check_fails. intros Hf.
+  destruct (N.ltb_spec 0 (len (i_ahc im) / 12)); [|lia].
+  destruct (N.ltb_spec (len (i_ahd im)) (32 * (len (i_ahc im) / 12))); [discriminate|lia].
 Qed.
 
 Lemma crash_image_open b img : crash_image (f_open b) img -> img = b.
@@ -285,43 +285,73 @@ Proof.
   f_equal; [apply crash_image_open; auto|apply IH; auto].
 Qed.
 
+(* the truncation issued by an open that found a partial last commit-log entry may or may not (or
+   partly) have reached the disk: the logs recover to the same state *)
+Lemma entry_at_take cm m k : 1 <= k -> 44 * k <= m -> entry_at (take m cm) k = entry_at cm k.
+Proof. intros Hk Hm. unfold entry_at. rewrite slice_take by lia. reflexivity. Qed.
+
+Lemma recover_logs_trim c tx cm vl m :
+  c_prealloc c = false -> len cm - len cm mod 44 <= m ->
+  recover_logs H c tx (take m cm) vl = recover_logs H c tx cm vl.
+Proof.
+  intros Hp Hm. unfold recover_logs. rewrite Hp. cbn [andb].
+  set (csz := len cm - len cm mod 44) in *.
+  assert (Ec: len (take m cm) - len (take m cm) mod 44 = csz).
+  { rewrite len_take. unfold csz. lia. }
+  rewrite Ec.
+  assert (El: recover_logs_at H csz tx (take m cm) vl = recover_logs_at H csz tx cm vl).
+  { unfold recover_logs_at. destruct (N.ltb_spec 0 csz) as [Hpos|Hz]; [|reflexivity].
+    rewrite entry_at_take; [reflexivity| |]; unfold csz in *; lia. }
+  rewrite El. reflexivity.
+Qed.
+
 Theorem crash_during_recovery c nv s im upto s1 im' :
   c_prealloc c = false -> 0 < c_thld c -> reach H c nv s -> crash s im ->
   recover_upto H upto c im = Ok s1 ->      (* recovery interrupted after re-linking `upto` leaves *)
   crash s1 im' ->                           (* ... by a second crash *)
-  (* recovery wrote nothing to the tx, commit and value logs *)
-  i_txl im' = i_txl im /\ i_cml im' = i_cml im /\ i_vls im' = i_vls im /\
-  exists s2 sf,
-    recover H c im' = Ok s2 /\ recover H c im = Ok sf /\
-    committed s2 = committed sf /\ calh s2 = calh sf /\ pbuf s2 = pbuf sf /\ palh s2 = palh sf /\
-    pts s2 = pts sf /\ acked s2 = acked sf /\ txl s2 = txl sf /\ cml s2 = cml sf /\ vls s2 = vls sf /\
-    phase_ s2 = PIdle /\ phase_ sf = PIdle /\
-    asize s2 = precommitted s2 /\ asize sf = precommitted sf.
+  (* recovery wrote nothing to the tx and value logs and at most dropped the partial last entry of
+     the commit log *)
+  i_txl im' = i_txl im /\ i_vls im' = i_vls im /\
+  (exists m, len (i_cml im) - len (i_cml im) mod 44 <= m /\ i_cml im' = take m (i_cml im)) /\
+  exists sf,
+    recover H c im = Ok sf /\ phase_ sf = PIdle /\ asize sf = precommitted sf /\
+    ((aht_check_fails im' /\ recover H c im' = Err ECorruptedData) \/
+     (~ aht_check_fails im' /\ exists s2,
+        recover H c im' = Ok s2 /\
+        committed s2 = committed sf /\ calh s2 = calh sf /\ pbuf s2 = pbuf sf /\ palh s2 = palh sf /\
+        pts s2 = pts sf /\ acked s2 = acked sf /\ txl s2 = txl sf /\ vls s2 = vls sf /\
+        phase_ s2 = PIdle /\ asize s2 = precommitted s2)).
 Proof.
   intros Hp Ht R Cr E1 Cr'.
   assert (R1: reach H c nv s1) by (eapply r_crash; eauto).
-  destruct (recover_core _ _ _ _ E1) as (L1 & T1 & V1 & C1 & _).
+  destruct (recover_core _ _ _ _ E1) as (L1 & T1 & V1 & C1 & _ & _ & _ & _ & Nf1).
   rewrite Hp in C1.
   pose proof Cr' as Cr2.
   destruct Cr' as (Ctx & Ccm & Cvl & _ & _).
   rewrite T1 in Ctx. rewrite V1 in Cvl. rewrite C1 in Ccm.
   assert (Etx: i_txl im' = i_txl im) by (apply crash_image_open; auto).
   assert (Evl: i_vls im' = i_vls im) by (apply Forall2_open; auto).
-  assert (Ecm: i_cml im' = i_cml im).
+  assert (Ecm: exists m, len (i_cml im) - len (i_cml im) mod 44 <= m /\ i_cml im' = take m (i_cml im)).
   { destruct (open_trim_spec H H_len (i_cml im) 44 ltac:(lia)) as (O1 & O2 & _).
-    rewrite <- O1. apply crash_image_nopending; auto. }
-  split; [exact Etx|]. split; [exact Ecm|]. split; [exact Evl|].
-  destruct (crash_safety H H_len c nv s1 im' Hp Ht R1 Cr2) as (s2 & E2 & _ & _ & A2 & P2 & S2 & _).
-  destruct (crash_safety H H_len c nv s im Hp Ht R Cr) as (sf & Ef & _ & _ & Af & Pf & Sf & _).
-  exists s2, sf. split; [exact E2|]. split; [exact Ef|].
-  destruct (recover_core _ _ _ _ E2) as (L2 & T2 & V2 & C2 & K2 & _).
-  destruct (recover_core _ _ _ _ Ef) as (Lf & Tf & Vf & Cf & Kf & _).
-  rewrite Etx, Ecm, Evl in L2. rewrite L2 in Lf.
-  assert (Q: (committed s2, calh s2, pbuf s2, palh s2, pts s2) = (committed sf, calh sf, pbuf sf, palh sf, pts sf)) by congruence.
+    destruct (cpre_pstream _ _ O2) as (Hps & Hnil).
+    destruct (crash_image_pstream _ _ _ Hps ltac:(rewrite O1; lia) Ccm) as (m & j & Hm & Hj & Ei).
+    rewrite Hnil, O1 in *. rewrite len_nil in Hj. assert (j = 0) by lia. subst j.
+    rewrite take_0, wr_nil in Ei. exists m. auto. }
+  split; [exact Etx|]. split; [exact Evl|]. split; [exact Ecm|].
+  destruct Ecm as (m & Hm & Ecm).
+  destruct (crash_safety H H_len c nv s im Hp Ht R Cr) as [(Bad & _)|(_ & sf & Ef & _ & _ & Af & Pf & Sf & _)];
+    [contradiction|].
+  exists sf. split; [exact Ef|]. split; [exact Pf|]. split; [exact Sf|].
+  destruct (crash_safety H H_len c nv s1 im' Hp Ht R1 Cr2) as [(Bad & E2)|(Good & s2 & E2 & _ & _ & A2 & P2 & S2 & _)].
+  { left. auto. }
+  right. split; [exact Good|]. exists s2. split; [exact E2|].
+  destruct (recover_core _ _ _ _ E2) as (L2 & T2 & V2 & _ & K2 & _).
+  destruct (recover_core _ _ _ _ Ef) as (Lf & Tf & Vf & _ & Kf & _).
+  rewrite Etx, Ecm, Evl in L2. rewrite (recover_logs_trim c _ _ _ m Hp Hm) in L2. rewrite L2 in Lf.
   assert (committed s2 = committed sf) by congruence.
   assert (calh s2 = calh sf) by congruence. assert (pbuf s2 = pbuf sf) by congruence.
   assert (palh s2 = palh sf) by congruence. assert (pts s2 = pts sf) by congruence.
-  rewrite Ecm in C2. rewrite Evl in V2.
+  rewrite Evl in V2. rewrite Etx in T2.
   repeat split; auto; try congruence.
 Qed.
 
